@@ -255,7 +255,7 @@ func RunC04(e *core.Env) int {
 	}
 	wit := []scen.Pair{{D: find("string"), S: find("ext.MPS")}, {D: find("string"), S: find("*LPS")}, {D: find("string"), S: find("LPS")},
 		{D: find("[]byte"), S: find("string")}, {D: find("[2]int"), S: find("[2]int")}}
-	corpus := []*scen.Scenario{scen.GenMatrix(wit, false, []string{"stringer", "typecast"}, "kw-c04-field", "kwc04a")}
+	corpus := append([]*scen.Scenario{scen.GenMatrix(wit, false, []string{"stringer", "typecast"}, "kw-c04-field", "kwc04a")}, hotCells()...)
 	if cb, err := NewBatch(e, "corpus", corpus); err == nil {
 		cb.RunTool(e, true)
 		for _, c := range cb.Cases {
@@ -310,4 +310,55 @@ func coverOf(lo *LeafObs) string {
 		return "exact"
 	}
 	return "enclosing"
+}
+
+// hotCells is a fixed mini-matrix run in every tier: the rows where conversions, String() and
+// addressability interact (string-like destinations x stringer kinds and their pointers, via field
+// and via getter, all 2^3 toggle sets).
+func hotCells() []*scen.Scenario {
+	find := func(expr string) scen.TypeEntry {
+		for _, t := range scen.Alphabet {
+			if t.Expr == expr {
+				return t
+			}
+		}
+		panic(expr)
+	}
+	dsts := []string{"string", "LStr", "[]byte", "interface{}", "*string", "int", "ext.MStr"}
+	srcs := []string{"LStr", "ext.MStr", "LPS", "ext.MPS", "LNum", "ext.MNum", "LSS", "ext.SS", "*LStr", "*LPS", "*ext.MStr", "string", "int", "*int", "LInt"}
+	var cells []scen.Pair
+	for _, d := range dsts {
+		for _, s := range srcs {
+			cells = append(cells, scen.Pair{D: find(d), S: find(s)})
+		}
+	}
+	var out []*scen.Scenario
+	n := 0
+	for start := 0; start < len(cells); start += 21 {
+		end := start + 21
+		if end > len(cells) {
+			end = len(cells)
+		}
+		for mask := 0; mask < 8; mask++ {
+			var t []string
+			if mask&1 != 0 {
+				t = append(t, "getter")
+			}
+			if mask&2 != 0 {
+				t = append(t, "stringer")
+			}
+			if mask&4 != 0 {
+				t = append(t, "typecast")
+			}
+			for _, via := range []bool{false, true} {
+				if via && mask&1 == 0 {
+					continue
+				}
+				id := fmt.Sprintf("hot%03d", n)
+				n++
+				out = append(out, scen.GenMatrix(cells[start:end], via, t, id, id))
+			}
+		}
+	}
+	return out
 }
